@@ -171,6 +171,12 @@ def load_config(file_name):
         raise UIError(
             "Validation of " + escape_braces(file_name) + " failed.\n{ind}" +
             "\n{ind}".join(errors) + "\n", err)
+    except RuntimeError as err:
+        # pykwalify cannot handle every document, for instance one in which
+        # an anchor refers to itself (recursive structure)
+        raise UIError(
+            "Validation of " + escape_braces(file_name) + " failed.\n{ind}" +
+            escape_braces(type(err).__name__ + ": " + str(err)) + "\n", err)
     return config_data
 
 
